@@ -97,7 +97,7 @@ def run(ctx):
                     ctx.violation('impl-violation', dict(payload, observed=bad, expected='C17 bounds of the robust problem'), trigger={'what': sorted(bad)[0]})
         ctx.sample({'spec': sp})
     vals = C.run_coq_exprs('C17', 'Num LP Cert Mapping Dcf Grid Assets Periodic Portfolio Corr Build', exprs, chunk=5)
-    names = ['c (present as is, futures / (nS+1))', 'l', 'u', 'rows (present shared, future block per scenario)']
+    names = ['c (present: mean over the samples, futures / (nS+1))', 'l', 'u', 'rows (present shared, future block per scenario)']
     for sp, v in zip(owners, vals):
         ctx.cov['correspondence']['cases'] += 1
         ctx.cov['correspondence']['components_compared'] += 4
